@@ -30,7 +30,7 @@ type InFn struct {
 
 // Yield delays the k-th passage of a role through a yield point.
 type Yield struct {
-	Point string `json:"point"` // run-enter | run-checked | exec-finish
+	Point string `json:"point"` // run-enter | run-checked | exec-finish | qh-pop (queue handler between its slot check and its pick; role qh, t -1)
 	Role  string `json:"role"`  // qh | sh | ex | any
 	T     int    `json:"t"`     // task index, -1 = any
 	K     int    `json:"k"`     // k-th matching passage (0-based)
@@ -186,6 +186,14 @@ func forcedScns(r *rand.Rand) []*Scn {
 		{Kind: "force-stale-timer-queued", N: 3, M: 1, Dur: [][]int{{200}, {0}, {0}}, Steps: []Step{
 			{At: 0, Th: 0, Op: "a", T: 0}, {At: j(4), Th: 0, Op: "d", T: 1, Arg: 20000000}, {At: j(7), Th: 0, Op: "q", T: 1},
 			{At: j(12), Th: 0, Op: "s", T: 2, Arg: 80}, {At: j(40), Th: 0, Op: "z", T: 2}}},
+		// the queue is busy with task 0 for longer than the max delay of task 1: the schedule handler starts task 1
+		// directly; task 0 returns while task 1 still runs; task 2 waits behind: it is due only after task 1 returned
+		{Kind: "force-direct-start-holds-queue", N: 3, M: 1, Dur: [][]int{{60}, {80}, {0}}, Steps: []Step{
+			{At: 0, Th: 0, Op: "q", T: 0}, {At: j(2), Th: 0, Op: "d", T: 1, Arg: 20000}, {At: j(5), Th: 0, Op: "q", T: 1}, {At: j(9), Th: 0, Op: "q", T: 2}}},
+		// the same, and the queue handler is held between its slot check and its pick while the max delay expires
+		{Kind: "force-pick-raced-by-direct-start", N: 3, M: 1, Dur: [][]int{{40}, {70}, {0}}, Steps: []Step{
+			{At: 0, Th: 0, Op: "q", T: 0}, {At: j(1), Th: 0, Op: "d", T: 1, Arg: 58000}, {At: j(4), Th: 0, Op: "q", T: 1}, {At: j(8), Th: 0, Op: "q", T: 2}},
+			Yields: []Yield{{Point: "qh-pop", Role: "qh", T: -1, K: 1, Ms: 45}}},
 		// self re-queue and self re-schedule from inside the function
 		{Kind: "force-self-requeue", N: 2, M: 1, Dur: [][]int{{5, 5, 0}, {3}}, Steps: []Step{{At: 0, Th: 0, Op: "q", T: 0}, {At: j(2), Th: 0, Op: "q", T: 1}},
 			InFn: []InFn{{T: 0, Run: 0, Op: "q", Target: 0}, {T: 0, Run: 1, Op: "s", Target: 0, Arg: 30, Late: true}}},
@@ -246,6 +254,77 @@ func staleTimerScn(r *rand.Rand) *Scn {
 		s.Yields = append(s.Yields, Yield{Point: "run-enter", Role: "sh", T: -1, K: r.Intn(2), Ms: pick(r, 1, 5, 20)})
 	}
 	return s
+}
+
+// directHoldsScn: the queue is busy with a task A for longer than the max delay of one or two tasks B waiting behind
+// it, so that the schedule handler starts B directly (the max-delay exception); B runs on after A has returned;
+// one to three further tasks C wait in the queues (submitted before B's start, while B runs, or after A returned).
+// "The next one only after the previous returned, was cancelled or exceeded the execution-wait limit": C is due
+// only after B returned (or was cancelled: one variant cancels B while it runs). Some scenarios hold the queue
+// handler between its slot check and its pick.
+func directHoldsScn(r *rand.Rand) *Scn {
+	s := &Scn{Kind: "direct-holds-queue", M: 1 + r.Intn(2)}
+	la := pick(r, 40, 60, 80)
+	nb, nc := 1+r.Intn(2), 1+r.Intn(3)
+	s.N = 1 + nb + nc
+	s.Dur = append(s.Dur, []int{la, 0})
+	at := 0
+	add := func(gap int, op string, t, arg int) {
+		at += gap
+		s.Steps = append(s.Steps, Step{At: at, Th: 0, Op: op, T: t, Arg: arg})
+	}
+	if r.Intn(3) == 0 {
+		add(0, "d", 0, 0)
+	}
+	add(0, string("qpa"[r.Intn(3)]), 0, 0)
+	at = 2
+	bEnd := 0
+	for i := 1; i <= nb; i++ {
+		md := pick(r, 12, 20, 30) // ms, shorter than A's run time
+		add(r.Intn(2), "d", i, md*1000)
+		add(1+r.Intn(2), string("qqpa"[r.Intn(4)]), i, 0)
+		lb := la - md + pick(r, 25, 40, 60) // B returns after A
+		if lb < 10 {
+			lb = 10
+		}
+		s.Dur = append(s.Dur, []int{lb, 0})
+		if e := at + md + lb; e > bEnd {
+			bEnd = e
+		}
+	}
+	for j := 0; j < nc; j++ {
+		c := 1 + nb + j
+		s.Dur = append(s.Dur, []int{pick(r, 0, 0, 2, 5)})
+		switch r.Intn(4) {
+		case 0: // submitted after A returned, while B runs
+			s.Steps = append(s.Steps, Step{At: la + 4 + r.Intn(12), Th: 1, Op: string("qpa"[r.Intn(3)]), T: c})
+		case 1: // submitted while A and B run
+			s.Steps = append(s.Steps, Step{At: 35 + r.Intn(10), Th: 1, Op: string("qpa"[r.Intn(3)]), T: c})
+		default: // waiting from the beginning
+			if r.Intn(5) == 0 {
+				add(0, "d", c, pick(r, 0, 200000, 2000000))
+			}
+			add(1+r.Intn(2), string("qqpa"[r.Intn(4)]), c, 0)
+		}
+	}
+	switch r.Intn(6) {
+	case 0: // B is cancelled while it runs, after A returned: its slot is handed back
+		s.Steps = append(s.Steps, Step{At: la + 8 + r.Intn(10), Th: 2, Op: "c", T: 1})
+	case 1: // the queue handler is held between its slot check and its pick
+		s.Yields = append(s.Yields, Yield{Point: "qh-pop", Role: "qh", T: -1, K: 1 + r.Intn(2), Ms: pick(r, 5, 20, 40)})
+	case 2:
+		s.Yields = append(s.Yields, Yield{Point: "run-enter", Role: pick2(r, "qh", "sh"), T: -1, K: r.Intn(2), Ms: pick(r, 2, 10, 25)})
+	}
+	s.Tail = 0
+	_ = bEnd
+	return s
+}
+
+func pick2(r *rand.Rand, a, b string) string {
+	if r.Intn(2) == 0 {
+		return a
+	}
+	return b
 }
 
 // misuseScn: the error paths and the glue — calls on cancelled and inert tasks, Schedule(zero) without a
